@@ -173,6 +173,11 @@ def make_types(rng):
                     ["str", S(encname), str(w), "-", "-", "1", "-", "-", "-", bo]], w, ens))
     add(PT("BIN24_T", ["pt", S("BIN24_T"), "plain", ["bin", "24", "-", "1", "-", "-"]], 24, lambda rng, c=None: rbits(rng, 24)))
     add(PT("BIN5_T", ["pt", S("BIN5_T"), "plain", ["bin", "5", "-", "1", "-", "-"]], 5, lambda rng, c=None: rbits(rng, 5)))
+    # binary fields longer than four bytes (a dataset column must hold them whole)
+    add(PT("BIN64_T", ["pt", S("BIN64_T"), "plain", ["bin", "64", "-", "1", "-", "-"]], 64,
+           lambda rng, c=None: "".join(f"{rng.randrange(1, 256):08b}" for _ in range(8))))
+    add(PT("BIN72_T", ["pt", S("BIN72_T"), "plain", ["bin", "72", "-", "1", "-", "-"]], 72,
+           lambda rng, c=None: "".join(f"{rng.randrange(1, 256):08b}" for _ in range(9))))
     # a binary field of fixed size 0 (legal, degenerate): decodes to b"" and must survive a write / load cycle
     add(PT("BIN0_T", ["pt", S("BIN0_T"), "plain", ["bin", "0", "-", "1", "-", "-"]], 0, lambda rng, c=None: ""))
     return ts
